@@ -268,9 +268,13 @@ func (sc *srvScen) tableHistory(n int) {
 			sc.respondingNode(addr, id, r.Intn(10) == 0)
 			sc.r.hist("table-event/response")
 		case k < 15: // unsolicited / mismatched response
-			q := &qspec{y: "r", t: sc.randT(), rid: &id}
-			sc.send(addr, q)
-			sc.r.hist("table-event/unsolicited-response")
+			if r.Intn(3) == 0 && id != sc.root && id != ([20]byte{}) {
+				sc.failedWriteThenReply(addr, id)
+			} else {
+				q := &qspec{y: "r", t: sc.randT(), rid: &id}
+				sc.send(addr, q)
+				sc.r.hist("table-event/unsolicited-response")
+			}
 		case k < 17:
 			if r.Intn(6) == 0 && id != sc.root && id != ([20]byte{}) {
 				sc.blockedMidQuery(addr, id)
